@@ -10,6 +10,7 @@ import (
 	"context"
 	"errors"
 	"fmt"
+	"io"
 	"strconv"
 	"testing"
 	"time"
@@ -42,7 +43,7 @@ type c06Case struct {
 	TermAt int       `json:"term_at"` // before step index TermAt (len(Steps) = at the end)
 }
 
-var c06TermKinds = []string{"srcEOF", "srcErr", "initEOF", "initErr", "initCancel", "initSendFail", "srcSendFail", "srcUnknownKind", "initUnknownKind", "openFail"}
+var c06TermKinds = []string{"srcEOF", "srcErr", "initEOF", "initErr", "initCancel", "initSendFail", "srcSendFail", "srcSendEOF", "srcUnknownKind", "initUnknownKind", "openFail"}
 
 type c06Outcome struct {
 	inFlightBoth   bool
@@ -190,6 +191,10 @@ func c06Run(t *testing.T, c c06Case) (out c06Outcome, verr error, herr error) {
 			cs.Push(m)
 		case "srcSendFail":
 			cs.FailSend(status.Error(codes.Unavailable, "transport is closing"))
+			ss.Push(mkAck())
+		case "srcSendEOF":
+			// the source has already finished the RPC: gRPC reports that to a sender as exactly io.EOF
+			cs.FailSend(io.EOF)
 			ss.Push(mkAck())
 		case "srcUnknownKind":
 			cs.Push(&vfResp{})
